@@ -231,6 +231,8 @@ TrTallySnapshot ==
      /\ bad' = bad
           \cup Flag(~ended[t], "C02:snapshot_before_end_timestamp")
           \cup Flag(Proj(R.info) # win[t], "C02:sample_tally_differs_from_timed_operations")
+          \* C08: with several threads, a sample reports only its own thread's operations
+          \cup Flag(Tn > 1 /\ Proj(R.info) # win[t], "C08:sample_tally_is_not_that_threads_own_operations")
   /\ UNCHANGED <<sc, lp, Tn, size, round, genN, callN, dropOutN, dropInN, cntN,
                  cleared, started, ended, win, val, outv, panicSeen, outcome, panicked>>
 
